@@ -8,6 +8,7 @@ CONSTANTS
   MaxAccepts = 2
   Items = {"get", "enable", "eof", "err", "boom", "junk", "partial", "new"}
   Stalled = {}
+VIEW MCView
 INVARIANT WholeInOrder
 INVARIANT PrefixWhenNoFailure
 INVARIANT OneInFlight
